@@ -123,14 +123,29 @@ class Ctx:
         self.cov["distinct_nontrivial"] += distinct
 
     # --- Coq -----------------------------------------------------------------------------------
-    def coq_build(self) -> bool:
-        """(Re)build the development; serialised across concurrently running checks."""
+    def coq_build(self, targets: list[str] | None = None) -> bool:
+        """(Re)build what this property needs (Properties/<pid>.vo, the Corr<pid> glue and their
+        dependencies); serialised across concurrently running checks.  _CoqProject lists every
+        .v file under coq/ and is regenerated when the set of files changes."""
         os.makedirs(os.path.join(VERIF, ".work"), exist_ok=True)
         with open(os.path.join(VERIF, ".work", "build.lock"), "w") as lk:
             fcntl.flock(lk, fcntl.LOCK_EX)
-            if not os.path.exists(os.path.join(COQ, "Makefile")):
+            files = []
+            for d, _, fs in os.walk(COQ):
+                for f in fs:
+                    if f.endswith(".v"):
+                        files.append(os.path.relpath(os.path.join(d, f), COQ))
+            want = "-Q . LV\n" + "\n".join(sorted(files)) + "\n"
+            cp = os.path.join(COQ, "_CoqProject")
+            have = open(cp).read() if os.path.exists(cp) else ""
+            if want != have or not os.path.exists(os.path.join(COQ, "Makefile")):
+                with open(cp, "w") as f:
+                    f.write(want)
                 sh("coq_makefile -f _CoqProject -o Makefile", cwd=COQ)
-            rc, out, dt = sh(f"timeout 3000 make -j{NPROC}", timeout=3100, cwd=COQ)
+            if targets is None:
+                targets = [f"Properties/{self.pid}.vo"] + sorted(
+                    f[:-2] + ".vo" for f in files if os.path.basename(f) == f"Corr{self.pid}.v")
+            rc, out, dt = sh(f"timeout 3000 make -j{NPROC} " + " ".join(targets), timeout=3100, cwd=COQ)
         self.build_log = out
         if rc != 0:
             log(out[-3000:])
